@@ -65,7 +65,7 @@ def family(rnd):
     spec = [{'t': 'source', 'ids': ids, 'fields': {'image': 's100', 'g1': 't020', 'g2': 't021'}}]
     if rnd.random() < 0.5:
         spec.append({'t': 'transform', 'fields': {'image': ['s101', ['image']]}, 'params': {}, 'inherit': True})
-    kind = rnd.choice(['group', 'group', 'byvalue-filter', 'filter', 'merge', 'split', 'shared-layer', 'shared-layer', 'join', 'ids-under-group', 'ids-under-filter'])
+    kind = rnd.choice(['group', 'group', 'byvalue-filter', 'filter', 'merge', 'split', 'shared-layer', 'shared-layer', 'join', 'ids-under-group', 'ids-under-filter', 'constant', 'columns-merge'])
     out = {'kind': kind, 'ids': ids, 'variants': []}
     base = lambda: P.build(spec, [])[0]      # noqa: E731
 
@@ -120,6 +120,30 @@ def family(rnd):
               ('source s100 >> shared >> group by g1', lambda: src('s100') >> shared >> GroupBy('g1')),
               ('source s105 >> shared >> group by g1', lambda: src('s105') >> shared >> GroupBy('g1'))]
         fields = ['image']
+    elif kind == 'constant':
+        # constructor arguments that are not hashable and print alike
+        import pickpool
+        mk = lambda h: (lambda: base() >> pickpool.Offset(cfg=pickpool.Cfg(h)))      # noqa: E731
+        mk2 = lambda lst: (lambda: base() >> pickpool.Offset(cfg=pickpool.Cfg(lst)))      # noqa: E731
+        vs = [('Cfg(1)', mk(1)), ('Cfg(2)', mk(2)), ('Cfg([1, 2])', mk2([1, 2])), ('Cfg([2, 1])', mk2([2, 1])), ('Cfg(1) again', mk(1))]
+        fields = ['image']
+    elif kind == 'columns-merge':
+        # two datasets merged and cached per shard on ONE store; a variant changes a function of the dataset that does not own the first id
+        import tempfile
+        root = tempfile.mkdtemp(prefix='collide_')
+        out['cleanup'] = root
+        k = rnd.randint(1, len(ids) - 1)
+        shard = rnd.choice([None, 2, 3])
+
+        def mk(sym_b, cached=True):
+            a = {'t': 'source', 'ids': ids[:k], 'fields': {'image': 's110'}}
+            b = {'t': 'source', 'ids': ids[k:], 'fields': {'image': sym_b}}
+            sp = [{'t': 'merge', 'parts': [[a], [b]]}] + ([{'t': 'columns', 'names': ['image'], 'root': 0, 'shard': shard}] if cached else [])
+            return P.build(sp, [root])[0]
+        vs = [('second dataset uses s111', lambda: mk('s111')), ('second dataset uses s112', lambda: mk('s112')), ('second dataset uses s111 again', lambda: mk('s111'))]
+        out['reference'] = {'second dataset uses s111': lambda: mk('s111', False), 'second dataset uses s112': lambda: mk('s112', False),
+                            'second dataset uses s111 again': lambda: mk('s111', False)}
+        fields = ['image']
     elif kind == 'join':
         from connectome import Join
         kl = {i: rnd.choice(['k1', 'k2', 'k3']) + str(j) for j, i in enumerate(ids)}
@@ -173,7 +197,17 @@ def family(rnd):
         except BaseException as e:  # noqa
             out['variants'].append({'variant': name, 'error': 'build: ' + exc_name(e)})
             continue
-        out['variants'].append(observe(name, layer, fields))
+        rec = observe(name, layer, fields)
+        if 'reference' in out and 'rows' in rec:
+            ref = out['reference'][name]()
+            for r in rec['rows']:
+                if r['field'] != 'ids' and 'value' in r:
+                    r['reference'] = to_json(ref._compile(r['field'])(*r['args']))
+        out['variants'].append(rec)
+    out.pop('reference', None)
+    if out.get('cleanup'):
+        import shutil
+        shutil.rmtree(out.pop('cleanup'), ignore_errors=True)
     return out
 
 
